@@ -81,6 +81,17 @@ def exc_sig(e: BaseException) -> str:
     return f"{type(e).__name__}@{inner or '?'}"
 
 
+def raised_in_library(e: BaseException) -> bool:
+    """True when the innermost frame of the exception's traceback is library code (dns/*), i.e. the
+    library failed under valid API usage, as opposed to a bug in the harness itself."""
+    tb = e.__traceback__
+    last = None
+    while tb is not None:
+        last = tb.tb_frame.f_code.co_filename
+        tb = tb.tb_next
+    return last is not None and "/dns/" in last and "/verif/" not in last
+
+
 class Ctx:
     MAX_VIOL = 40
     MAX_SAMPLES = 6
